@@ -231,7 +231,7 @@ def chimeric(rng, R, noisy=True):
 
 def gen_scenario(rng: random.Random, kind=None) -> Scenario:
     kind = kind or rng.choice(["plain", "plain", "noisy", "chimeric", "indel", "degenerate", "params", "multi_ref"])
-    nref = 1 if kind not in ("multi_ref", "degenerate", "translocation") else rng.randrange(1, 4)
+    nref = 1 if kind not in ("multi_ref", "degenerate", "translocation", "twin_refs") else rng.randrange(1, 4)
     if kind == "translocation":
         nref = rng.randrange(2, 4)
     refs = []
@@ -244,11 +244,17 @@ def gen_scenario(rng: random.Random, kind=None) -> Scenario:
                 j = rng.randrange(2, len(R) - 2)
                 R = R[:j] + [R[j]] + R[j:]
         refs.append((i + 1 if rng.random() < 0.7 else (i + 1) * 7, R[-1] + 1 + rng.randrange(100, 20000), R))
+    if kind == "twin_refs":
+        # a second reference that is a degraded copy of the first AT THE SAME COORDINATES: primary peaks of one query on
+        # the two references fall into the same bin, i.e. have equal positions (and different scores)
+        mid, ln, R = refs[0]
+        R2 = sorted(set(p + rng.choice([0, 0, 0, 150, -150]) for p in R if rng.random() < 0.8))
+        refs = [refs[0], (mid + 50, ln, R2)] + refs[1:2]
     queries = []
     nq = rng.randrange(3, 9)
     ids = rng.sample(range(1, 60), nq)
     for qi in ids:
-        R = rng.choice(refs)[2]
+        R = rng.choice(refs)[2] if kind != "twin_refs" else refs[0][2]
         r = rng.random()
         if kind == "translocation" and len(refs) > 1 and r < 0.7:
             # head from one reference, tail from another one: first- and second-pass records of ONE query
@@ -332,6 +338,25 @@ class RowCatcher(Extension):
                            "row": message.alignment, "query": q, "reference": message.reference})
 
 
+from src.extensions.messages import InitialAlignmentMessage  # noqa: E402
+
+
+class PrimaryCatcher(Extension):
+    """every primary correlation the worker computes (forward, then reverse, per reference), in-process: the
+    peaks BEFORE the peaksCount cut over all correlations"""
+    messageType = InitialAlignmentMessage
+
+    def __init__(self):
+        self.items = []
+
+    def handle(self, message):
+        ia = message.data
+        q = ia.query
+        self.items.append({"qid": int(q.moleculeId), "shift": int(q.shift), "n": len(q.positions), "ref": int(ia.reference.moleculeId),
+                           "empty": type(ia).__name__ == "EmptyInitialAlignment" or len(ia.correlation) == 0,
+                           "peaks": [(int(p.position), float(p.score)) for p in ia.peaks]})
+
+
 def run_modes(sc, modes, rids=None, qids=None, it=1):
     """run the real program once per mode (serial map) and the model on the same seeds.
     returns {mode: {"real": res, "line": run_line, "real_out": str, "cands": [...]}}"""
@@ -400,8 +425,9 @@ def run_modes_rb(sc, modes, rids=None, qids=None, it=1, do_readback=True):
     out = {}
     with Workdir() as d:
         for mode in modes:
-            rc = RowCatcher()
-            res = run_real(sc, mode, d, serial=True, rids=rids, qids=qids, extensions=[rc])
+            rc, pc = RowCatcher(), PrimaryCatcher()
+            res = run_real(sc, mode, d, serial=True, rids=rids, qids=qids, extensions=[rc, pc])
+            res["primary"] = pc.items
             line = run_line(sc, mode, res["seeds"], rids=rids, qids=qids, it=it)
             rb = {}
             if do_readback and not res["error"]:
@@ -601,6 +627,41 @@ def gen_c11(rng: random.Random, nq=6):
     sc = Scenario(refs, queries, P, extra, None, "c11")
     # the mirror image of the WHOLE molecule (its unlabelled tail becomes an unlabelled head)
     mir = Scenario(refs, [(qi, ln, [ln - 1 - p for p in reversed(ps)]) for qi, ln, ps in queries], P, extra, None, "c11-mirror")
+    return sc, mir
+
+
+def gen_c11_blur_palindromes(rng: random.Random, nq=5):
+    """lattice molecules whose PRIMARY bit vector (resolution 1400, blur 1) reads the same from both ends although the
+    molecule is not mirror-symmetric: label clusters at bin offsets (0,1,3) and (0,2,3) smear to the same run of
+    ones, so a molecule carrying the SAME cluster at mirrored offsets has a palindromic blurred vector while its
+    mirror image carries the other cluster.  Both strands then give the same primary correlation and only the
+    secondary stage / the pairing can tell them apart."""
+    unit = 1400
+    A, B = (0, 1, 3), (0, 2, 3)
+    queries, refcells, base = [], [], 0
+    for qi in rng.sample(range(1, 90), nq):
+        half = rng.randrange(3, 6)
+        L = rng.randrange(60, 110)
+        offs = [0] + sorted(rng.sample(range(9, L // 2 - 6, 9), min(half, len(range(9, L // 2 - 6, 9)))))
+        cells = set()
+        for o in offs:
+            cl = rng.choice([A, B])
+            for d in cl:
+                cells.add(o + d)
+                cells.add(L - 3 - o + d)
+        cells = sorted(cells)
+        q = [c * unit for c in cells]
+        emb = cells if rng.random() < 0.5 else [cells[-1] - c for c in reversed(cells)]   # on '+' or on '-'
+        base += rng.randrange(20, 40)
+        refcells += [base + c for c in emb]
+        base += cells[-1]
+        queries.append((qi, q[-1] + 1, q))
+    base += rng.randrange(20, 40)
+    refcells = sorted(set(refcells + [base]))
+    refs = [(1, refcells[-1] * unit + 1 + unit, [c * unit for c in refcells])]
+    P = dict(gens.DEFAULT_P, md=rng.choice([500, 600]))
+    sc = Scenario(refs, queries, P, {}, None, "c11-blur-palindromes")
+    mir = Scenario(refs, [(qi, ln, [ln - 1 - p for p in reversed(ps)]) for qi, ln, ps in queries], P, {}, None, "c11-blur-palindromes-mirror")
     return sc, mir
 
 
